@@ -123,6 +123,12 @@ def _f(ans, key):
     return "-"
 
 
+# ops that change what the transport offers (the transport's own waker wakes the connection task) or that poll the
+# connection themselves
+INPUT_OPS = ("cn_peer", "cn_eof", "cn_rderr", "cn_wrerr", "cn_budget", "cn_iws", "cn_target", "cn_accept", "cn_new", "cn_graceful", "cn_abrupt",
+             "cn_dropconn", "cn_takeping")
+
+
 def mon_conn(ops, impl):
     """monitor script for the wire-level reference monitors (H2V/Spec/Wire.lean) from a trace of the real connection"""
     out = []
@@ -132,6 +138,7 @@ def mon_conn(ops, impl):
     role, reset_max = "client", "-"
     last_st, last_op_was_input = "", True
     held = {}
+    woken_since_poll, input_since_poll, parked = False, True, False
     for i, (o, a) in enumerate(zip(ops, impl)):
         w = o.split(" ")
         if w[0] == "cn_new":
@@ -143,6 +150,7 @@ def mon_conn(ops, impl):
                 out.append((i, "mon_cn rx S:0:0:-"))     # the peer's first SETTINGS is fed by cn_new itself
             slots = []
             held = {}
+            woken_since_poll, input_since_poll, parked = False, True, False
             budget_open = True
             alive = True
             role = w[1]
@@ -163,6 +171,17 @@ def mon_conn(ops, impl):
             selfw = "c" in _f(a, "wk=").split(",")
             progress = _f(a, "tx=") != "-" or st != last_st or last_op_was_input
             out.append((i, f"mon_cn polled {int(selfw)} {int(progress)}"))
+        # C06: a poll nobody asked for must find nothing to write
+        if "c" in _f(a, "wk=").split(",") and w[0] != "cn_poll":
+            woken_since_poll = True
+        if w[0] in INPUT_OPS:
+            input_since_poll = True
+        if w[0] == "cn_poll":
+            out.append((i, f"mon_cn pollwork {int(parked)} {int(woken_since_poll)} {int(input_since_poll)} {int(_f(a, 'tx=') != '-')}"))
+            parked = r == "pending"
+            # a wake-up fired DURING the poll (the task re-arms itself) counts for the next one
+            woken_since_poll = "c" in _f(a, "wk=").split(",")
+            input_since_poll = False
         last_op_was_input = w[0] != "cn_poll"
         last_st = st
         if st not in ("-", "gone", ""):
